@@ -47,6 +47,19 @@ def spec_thr(draw, tier):
         b = draw(mk(cvs, name="b%d" % (j + 1)))
         bs.append(b if b is not None else draw(biases.harmonic(cvs, name="b%d" % (j + 1))))
     T = draw(st.integers(2, 5))
+    extra = draw(st.integers(0, 2)) == 0
+    if extra:
+        # variables that no bias uses, computed every 2nd / 3rd step: the set of active work items changes from step to step
+        # while their number may stay the same
+        T = max(T, 4)
+        for j, f in enumerate((2, 3)):
+            c = draw(gen.scalar_colvar(sysd, "cvx%d" % (j + 1), max_comps=1, allow_scripted=False))
+            c["kv"] = dict(c.get("kv") or {}, timeStepFactor=str(f))
+            cvs.append(c)
+    # one metadynamics bias may publish its hills for other walkers (it then has to run on the main thread)
+    mw = [b for b in bs if b["type"] == "meta"]
+    if mw and draw(st.booleans()):
+        mw[0]["mw"] = True
     n = sysd["natoms"]
     moves = [[[rnd(draw(fl(-0.15, 0.15)), 3) for _ in range(3)] for _ in range(n)] for _ in range(T)]
     return {"sys": sysd, "cvs": cvs, "biases": bs, "moves": moves, "nthreads": draw(st.integers(2, 8)),
@@ -56,8 +69,9 @@ def spec_thr(draw, tier):
 
 def render_b(b, cvs, values):
     if b["type"] == "meta":
-        return "metadynamics {\n  name %s\n  colvars %s\n  hillWeight 0.1\n  hillWidth 2.0\n  newHillFrequency 1\n  useGrids off\n}" % (
-            b["name"], cvs[b["cvs"][0]]["name"])
+        return "metadynamics {\n  name %s\n  colvars %s\n  hillWeight 0.1\n  hillWidth 2.0\n  newHillFrequency 1\n  useGrids off\n%s}" % (
+            b["name"], cvs[b["cvs"][0]]["name"],
+            "  multipleReplicas on\n  replicaID r0\n  replicasRegistry registry.txt\n  replicaUpdateFrequency 1\n" if b.get("mw") else "")
     if b["type"] == "histogram":
         v = values[b["cvs"][0]][0]
         return "histogram {\n  name %s\n  colvars %s\n  grid {\n    width 1.0\n    lowerBoundary %s\n    upperBoundary %s\n  }\n}" % (
@@ -98,12 +112,23 @@ def case(spec, cfg, sched, variant_extra=()):
     if spec["scripted"]:
         L.append("scripted_force %s 0.37" % spec["cvs"][-1]["name"])
     L.append(gen.config_block(cfg))
+    if any(b.get("mw") for b in spec["biases"]):
+        L.append("outprefix mw")
     pos = [list(p) for p in sysd["pos"]]
     for mv in spec["moves"]:
         pos = [[p[d] + m[d] for d in range(3)] for p, m in zip(pos, mv)]
         L += [gen.pos_line(pos), "step"]
     L.append("savestr")
     return "\n".join(L) + "\n"
+
+
+def scratch_dir(ctx):
+    """a fresh empty directory per run (replica files of a multiple-walker bias are written to the working directory)"""
+    import shutil
+    d = os.path.join(ctx["workdir"], "c12_%d" % os.getpid())
+    shutil.rmtree(d, ignore_errors=True)
+    os.makedirs(d)
+    return d
 
 
 def first_pass(spec, ctx):
@@ -136,7 +161,7 @@ def check_order(spec, ctx):
     runs = {}
     for name, sc in scheds.items():
         c = case(spec, cfg, sc)
-        r = run_case(c)
+        r = run_case(c, cwd=scratch_dir(ctx))
         if r.crashed:
             return Outcome(False, msg="crash with schedule '%s': rc=%s %s" % (name, r.returncode, r.stderr[-500:]), sig="crash", case_text=c)
         if r.of("config")[0]["rc"] != 0:
@@ -173,7 +198,8 @@ def check_order(spec, ctx):
     cls = ("items%d" % min(nitems, 8), "nb%d" % len(spec["biases"]), "scripted" if spec["scripted"] else "", "err" if spec["error_item"] else "")
     return Outcome(True, nontrivial=nitems >= 4 and spec["nthreads"] >= 2, cls=cls,
                    strata=["bias:" + b["type"] for b in spec["biases"]] + (["scripted_force"] if spec["scripted"] else []) +
-                   (["error_item"] if spec["error_item"] else []), case_text=runs["threads"][1])
+                   (["error_item"] if spec["error_item"] else []) + (["tsf_variables"] if any((cv.get("kv") or {}).get("timeStepFactor") for cv in spec["cvs"]) else []) +
+                   (["mw_meta"] if any(b.get("mw") for b in spec["biases"]) else []), case_text=runs["threads"][1])
 
 
 def check_race(spec, ctx):
@@ -183,7 +209,7 @@ def check_race(spec, ctx):
     cfg = config(spec, vals, ctx["workdir"])
     tape = " ".join(str(t) for t in spec["tape"])
     c = case(spec, cfg, "schedule 2 %d %s" % (spec["nthreads"], tape))
-    r = run_case(c, variant="tsan", timeout=300)
+    r = run_case(c, variant="tsan", timeout=300, cwd=scratch_dir(ctx))
     if "ThreadSanitizer" in r.stderr or r.returncode == 66:
         rep = r.stderr[r.stderr.find("WARNING: ThreadSanitizer"):][:2500] if "WARNING: ThreadSanitizer" in r.stderr else r.stderr[-2500:]
         import re
@@ -202,6 +228,8 @@ def view(spec):
     return {"natoms": spec["sys"]["natoms"], "variables": [gen.render_colvar(cv) for cv in spec["cvs"]],
             "biases": [b["type"] for b in spec["biases"]], "nthreads": spec["nthreads"], "tape": spec["tape"][:8], "scripted": spec["scripted"]}
 
+
+REQUIRED_STRATA = {"all": ["order:tsf_variables", "order:mw_meta", "order:error_item", "order:scripted_force"]}
 
 PARTS = {
     "order": {"strategy": spec_thr, "check": check_order, "examples": {"quick": 600, "thorough": 12000}, "sample": view},
